@@ -259,7 +259,38 @@ def plan_c02(ctx):
     return r
 
 
+def plan_c18(ctx):
+    r = standard(ctx, [dict(module='MC_Origins')],
+                 rule='relabelling of all 12 faces x 5 quintants x 2 directions; 12 face centres and all 66 pairwise angles; nearest-face '
+                      'selection for uniform points and points within 1e-9..1e-2 rad of seams/vertices/centres at res 0 and 1; the 120 base '
+                      'and 120 reflected spherical triangles of the memo cache as a mesh. distinct_nontrivial = nearest-face points whose '
+                      'margin to the runner-up face is below 1e-6 rad + 66 pairs + 60 relabellings',
+                 assumptions=['true angular distances are computed by the harness from the 12 recorded centres'])
+    s = r['summary']
+    r['distinct_nontrivial'] = int(s.get('nearest_points_within_1e-6_of_a_seam', 0)) + 66 + 60
+    return r
+
+
+def plan_c06(ctx):
+    r = standard(ctx, [dict(module='MC_Hilbert', cfg='MC_Hilbert_c17', workers=12, coverage=False), dict(module='MC_Origins')],
+                 gen_kv={'golden': os.path.join(os.path.dirname(os.path.dirname(os.path.abspath(__file__))), 'golden')},
+                 rule='discrete pin: s_to_anchor / tiles / ij_to_s equal to the TLA+ transcription of v0.6.2 for all positions depth<=4 '
+                      '(quick) / <=6 and patterns to 29, relabelling tables on 12 faces; continuous pin: frozen golden table generated '
+                      'once from the reference release (every cell res<=3, 3 cells per face x quintant for res 4..29: centre + corners; '
+                      'deep interior points -> id), replayed. distinct_nontrivial = golden cells + golden lookups + pinned positions',
+                 assumptions=['the golden table was generated from commit e2ba7e1 (reference + hooks only) by harness gen GOLDEN',
+                              'entries within 2e-5 rad of a pole and lookups not deeply inside in the reference are not pinned'],
+                 level='other',
+                 explanation='Reference conformance: the specification is the pin for every discrete table (checked by TLC on recorded '
+                             'events), a frozen trace of the reference release is the pin for the continuous anchoring (replayed into '
+                             'the current code; TLC validates the recorded deviations). This is regression comparison, not model checking.')
+    s = r['summary']
+    r['distinct_nontrivial'] = int(s.get('golden_cells', 0)) + int(s.get('golden_lookups', 0)) + int(s.get('pinned_positions', 0))
+    return r
+
+
 PLANS = {
+    'C18': plan_c18, 'C06': plan_c06,
     'C01': plan_c01, 'C02': plan_c02, 'C03': plan_c03, 'C04': plan_c04, 'C11': plan_c11,
     'C13': plan_c13,
     'C14': plan_c14,
